@@ -10,5 +10,16 @@ check("C18", "proof",
       "SSA may-alias taint (effects) analysis over abstractly instantiated templates and generated instances; compile-time constant-initialiser check; positive/negative fixtures on every run",
       "DESIGN.md 3/C18")
 
-for pid in ["C01","C02","C03","C04","C05","C06","C07","C08","C09","C10","C11","C12","C14","C15","C16","C17","C19"]:
+check("C19", "other",
+      "Decides the structural chain that makes one numbering reach all three generated files: constants and _TokenToString generated from one range over Grammar.Terminals with value = range key; Terminal.Index = position, list never reordered; EOF/ERROR created first and equal to the reference driver's constants; accept actions carry Terminal.Index through the lexer table into Token(); parser rows keyed by Terminal.Index and looked up by the id ReadToken returned; terminals created only by token/@external declarations after a successful name registration. Each link is a necessary condition; breaking one breaks the numbering for every specification that exercises it.",
+      "Not decided: the numbers emitted for a concrete specification; density/declaration order across several .lox files (filepath.Glob order). simplelexer v0.5.0 from the module cache is taken as the reference driver.",
+      "writer/reader agreement rules over typed AST of the generator and of the abstractly instantiated templates; who-may-write (field ownership) checks",
+      "DESIGN.md 3/C19")
+check("C10", "other",
+      "Decides that encoder (internal/codegen) and decoder (template runtime code) agree on the table format and that row compression is structurally lossless: header words, transition triple order and strides, action pair stride, codes equal on both sides and to the reference driver's result codes, ranges sorted by the comparator the binary search assumes, non-greedy flag bit, dedup key covering every element with a self-delimiting encoding, index rebase by exactly the index-vector length, one row prologue for all readers, parser action/goto value encoding, index = position for productions, rules and states.",
+      "Not decided: equivalence of the emitted DFA with the mode's rules (subset construction, partition refinement, range merging are behavioural), disjointness of emitted ranges, the concrete numbers. The comparison is between two pieces of source text of the same tree, so it holds for every table ever emitted.",
+      "sibling cross-check (writer vs reader) by symbolic pattern extraction over typed AST: strides, offsets, codes, constants compared between Go encoder and template decoder",
+      "DESIGN.md 3/C10")
+
+for pid in ["C01","C02","C03","C04","C05","C06","C07","C08","C09","C11","C12","C14","C15","C16","C17"]:
     na(pid, "check under construction in this session; see DESIGN.md section 3 for the planned rules")
